@@ -654,3 +654,259 @@ Proof.
   - apply Nat.eqb_eq in E5. contradiction.
   - apply andb_true_iff in E5. destruct E5 as [Ea Eb]. split; apply eqb_prop; assumption.
 Qed.
+
+(* ---------- observers (ambient state: logging, progress, diagnostics) ---------- *)
+Lemma nsum_app a b : nsum (a ++ b) = nsum a + nsum b.
+Proof. unfold nsum. induction a as [|x a IH]; simpl; [reflexivity|]. rewrite IH. lia. Qed.
+
+Lemma after_last_reseed_cat a b acc :
+  after_last_reseed (a ++ b) acc = after_last_reseed b (after_last_reseed a acc).
+Proof.
+  revert acc. induction a as [|e a IH]; intros acc; simpl; [reflexivity|].
+  destruct e; apply IH.
+Qed.
+
+Section ObserversP.
+  Context {seed sample : Type}.
+  Context (stream : seed -> nat -> sample).
+  Context (width : nat).
+
+  Notation state := (@state seed).
+  Notation observe := (@observe seed sample stream width).
+  Notation observe_all := (@observe_all seed sample stream width).
+  Notation draws_obs := (@draws_obs seed sample stream width).
+  Notation pass_obs := (@pass_obs seed sample stream width).
+  Notation pass_with := (@pass_with seed sample stream width).
+  Notation draws := (draws stream width).
+  Notation step := (step stream width).
+
+  (* no observer of this kind changes the seed in force *)
+  Lemma observe_seed o (st : state) : st_seed (fst (observe o st)) = st_seed st.
+  Proof. destruct o; reflexivity. Qed.
+
+  Lemma observe_all_seed os (st : state) : st_seed (observe_all os st) = st_seed st.
+  Proof.
+    revert st. induction os as [|o os IH]; intros st; simpl; [reflexivity|].
+    unfold Randoms.observe_all in *. simpl. rewrite IH. apply observe_seed.
+  Qed.
+
+  (* observers that look at a copy (or restore what they touched) leave every state as it is *)
+  Lemma observe_transparent o (st : state) : transparent o = true -> fst (observe o st) = st.
+  Proof. destruct o; simpl; intros H; try discriminate; reflexivity. Qed.
+
+  Lemma observe_all_transparent os (st : state) : forallb transparent os = true -> observe_all os st = st.
+  Proof.
+    revert st. induction os as [|o os IH]; intros st H; simpl in *; [reflexivity|].
+    apply andb_true_iff in H. destruct H as [Ho Hos].
+    unfold Randoms.observe_all in *. simpl. rewrite (observe_transparent o st Ho). apply IH. exact Hos.
+  Qed.
+
+  Lemma draws_obs_transparent each (st : state) sizes :
+    forallb transparent each = true -> draws_obs each st sizes = draws st sizes.
+  Proof.
+    intros H. revert st. induction sizes as [|k r IH]; intros st; simpl; [reflexivity|].
+    rewrite (observe_all_transparent each _ H). rewrite IH. reflexivity.
+  Qed.
+
+  Lemma draws_obs_nil (st : state) sizes : draws_obs [] st sizes = draws st sizes.
+  Proof. apply draws_obs_transparent. reflexivity. Qed.
+
+  (* with the observers switched off a pass is the pass of the generator *)
+  Theorem pass_obs_off h n cs (st : state) : pass_obs false h n cs st = step (Pass n cs) st.
+  Proof. reflexivity. Qed.
+
+  (* a pass does not depend on whether transparent observers run: the records are a function of
+     the seed in force, whatever the ambient state switches on *)
+  Theorem pass_obs_transparent on h n cs (st : state) :
+    forallb transparent (h_start h) = true -> forallb transparent (h_each h) = true ->
+    pass_obs on h n cs st = step (Pass n cs) st.
+  Proof.
+    intros Hs He. destruct on; [|reflexivity]. unfold Randoms.pass_obs.
+    rewrite (observe_all_transparent _ _ Hs). apply draws_obs_transparent. exact He.
+  Qed.
+
+  Corollary pass_obs_ambient_free h n cs (st : state) :
+    forallb transparent (h_start h) = true -> forallb transparent (h_each h) = true ->
+    pass_obs true h n cs st = pass_obs false h n cs st.
+  Proof. intros Hs He. rewrite !pass_obs_transparent by assumption. reflexivity. Qed.
+
+  (* ANY observers at the start of a pass are harmless when the state is restored by re-seeding
+     after them (observers keep the seed; the state after reseed() depends on the seed only) *)
+  Lemma observe_all_app a b (st : state) : observe_all (a ++ b) st = observe_all b (observe_all a st).
+  Proof. unfold Randoms.observe_all. apply fold_left_app. Qed.
+
+  Theorem start_rewind_harmless os each n cs (st : state) :
+    pass_obs true (mkHooks (os ++ [ORewind]) each) n cs st = pass_obs true (mkHooks [] each) n cs st.
+  Proof.
+    unfold Randoms.pass_obs. simpl. rewrite observe_all_app.
+    change (observe_all [ORewind] (observe_all os (reseed st))) with (reseed (observe_all os (reseed st))).
+    rewrite (reseed_fresh (observe_all os (reseed st))), observe_all_seed. reflexivity.
+  Qed.
+
+  (* the sizes of the chunks do not depend on the observers at all: the clause "exactly n
+     records" cannot see an observer that moves the stream *)
+  Lemma draws_obs_sizes each sizes (st : state) : map ch_size (snd (draws_obs each st sizes)) = sizes.
+  Proof.
+    revert st. induction sizes as [|k r IH]; intros st; simpl; [reflexivity|].
+    specialize (IH (observe_all each (mkState (st_seed st) (st_pos st + width * k)))).
+    destruct (draws_obs each _ r) as [s2 cs]. simpl in *. rewrite IH. reflexivity.
+  Qed.
+
+  Theorem pass_obs_sizes on h n cs (st : state) :
+    map ch_size (snd (pass_obs on h n cs st)) = random_sizes n cs.
+  Proof.
+    destruct on; unfold Randoms.pass_obs; [apply draws_obs_sizes|apply draws_sizes].
+  Qed.
+
+  (* where the observers at the start leave the stream: width * (the calls after the last reseed of
+     their event log) *)
+  Lemma observe_all_pos os (st : state) acc :
+    st_pos st = width * nsum acc ->
+    st_pos (observe_all os st) = width * nsum (after_last_reseed (start_events os) acc).
+  Proof.
+    revert st acc. induction os as [|o os IH]; intros st acc H; simpl; [exact H|].
+    unfold Randoms.observe_all in *. simpl. unfold start_events in *. simpl.
+    rewrite after_last_reseed_cat. apply IH.
+    destruct o; simpl; try exact H.
+    - rewrite H, nsum_app. unfold nsum. simpl. lia.
+    - unfold nsum. simpl. lia.
+    - unfold nsum. simpl. lia.
+  Qed.
+
+  (* the tie the harness uses: when the calls after the last reseed of the event log of a pass are
+     exactly the sizes of the pass, the observers left the state of the re-seed behind, and the pass
+     is the pass of the generator *)
+  Theorem tie_sound os n cs :
+    after_last_reseed (pass_obs_events os n cs) [] = random_sizes n cs ->
+    forall st : state, pass_obs true (mkHooks os []) n cs st = step (Pass n cs) st.
+  Proof.
+    unfold pass_obs_events. simpl. rewrite after_last_reseed_cat, after_last_reseed_calls.
+    intros E st.
+    assert (P : after_last_reseed (start_events os) [] = []).
+    { apply (f_equal (@length nat)) in E. rewrite app_length in E.
+      destruct (after_last_reseed (start_events os) []); [reflexivity|simpl in E; lia]. }
+    unfold Randoms.pass_obs. simpl. rewrite draws_obs_nil.
+    assert (F : observe_all os (reseed st) = reseed st).
+    { pose proof (observe_all_seed os (reseed st)) as Hs.
+      pose proof (observe_all_pos os (reseed st) [] (eq_sym (Nat.mul_0_r width))) as Hp.
+      rewrite P in Hp. unfold nsum in Hp. simpl in Hp. rewrite Nat.mul_0_r in Hp.
+      destruct (observe_all os (reseed st)) as [s p]. simpl in *. subst. reflexivity. }
+    rewrite F. reflexivity.
+  Qed.
+
+  (* ---------- independent of an observer IFF the observer restores the state ---------- *)
+  Definition stream_injective : Prop :=
+    forall s s' p p', stream s p = stream s' p' -> s = s' /\ p = p'.
+
+  Lemma random_sizes_1_1 : random_sizes 1 1 = [1].
+  Proof. reflexivity. Qed.
+
+  Theorem observer_free_iff :
+    1 <= width -> stream_injective ->
+    forall f : state -> state,
+    (forall n cs st, pass_with f n cs st = snd (step (Pass n cs) st)) <->
+    (forall s, f (fresh s) = fresh s).
+  Proof.
+    intros Hw Hinj f. split.
+    - intros H s. specialize (H 1 1 (fresh s)). unfold Randoms.pass_with, Randoms.step in H.
+      rewrite random_sizes_1_1 in H.
+      change (reseed (fresh s)) with (fresh s) in H.
+      destruct (f (fresh s)) as [s' p'] eqn:Ef.
+      destruct width as [|w]; [lia|]. simpl in H.
+      injection H as H _.
+      apply Hinj in H. destruct H as [Hs Hp].
+      unfold fresh. subst. f_equal. lia.
+    - intros H n cs st. unfold Randoms.pass_with. simpl.
+      rewrite (reseed_fresh st), H. reflexivity.
+  Qed.
+
+  (* for the observers of the model: a pass is independent of an observer at its start iff the
+     observer does not advance the stream *)
+  Lemma observe_fresh o s : fst (observe o (fresh s)) = mkState s (width * advance o).
+  Proof.
+    destruct o; unfold fresh; simpl; rewrite ?Nat.mul_0_r; reflexivity.
+  Qed.
+
+  Theorem start_observer_free_iff (s0 : seed) :
+    1 <= width -> stream_injective ->
+    forall o,
+    (forall n cs st, snd (pass_obs true (mkHooks [o] []) n cs st) = snd (pass_obs false (mkHooks [o] []) n cs st)) <->
+    advance o = 0.
+  Proof.
+    intros Hw Hinj o.
+    pose proof (observer_free_iff Hw Hinj (fun st => fst (observe o st))) as [A B].
+    split.
+    - intros H.
+      assert (G : forall s, fst (observe o (fresh s)) = fresh s).
+      { apply A. intros n cs st. specialize (H n cs st). unfold Randoms.pass_obs in H. simpl in H.
+        rewrite draws_obs_nil in H. exact H. }
+      specialize (G s0). rewrite observe_fresh in G. unfold fresh in G.
+      injection G as G. destruct (advance o); [reflexivity|]. destruct width; lia.
+    - intros H n cs st. unfold Randoms.pass_obs. simpl. rewrite draws_obs_nil.
+      apply B. intros s. rewrite observe_fresh, H, Nat.mul_0_r. reflexivity.
+  Qed.
+End ObserversP.
+
+(* an observer that draws a preview through get_probe (re-seeds, then leaves the stream advanced)
+   changes every record of the pass, while the sizes stay what they were *)
+Theorem advancing_observer_refuted :
+  exists k n cs s,
+    let h := mkHooks [OProbe k] [] in
+    let stream := fun sd p : nat => sd + p in
+    snd (pass_obs stream 2 true h n cs (fresh s)) <> snd (pass_obs stream 2 false h n cs (fresh s)) /\
+    map ch_size (snd (pass_obs stream 2 true h n cs (fresh s))) =
+    map ch_size (snd (pass_obs stream 2 false h n cs (fresh s))).
+Proof. exists 3, 5, 2, 7. vm_compute. split; [discriminate|reflexivity]. Qed.
+
+(* a live preview (no re-seed) is refuted the same way *)
+Theorem preview_observer_refuted :
+  exists k n cs s,
+    let h := mkHooks [OPreview k] [] in
+    let stream := fun sd p : nat => sd + p in
+    snd (pass_obs stream 2 true h n cs (fresh s)) <> snd (pass_obs stream 2 false h n cs (fresh s)).
+Proof. exists 1, 3, 2, 7. vm_compute. discriminate. Qed.
+
+(* between the chunks even a re-seed is not harmless: every chunk starts the stream again *)
+Theorem rewinding_each_observer_refuted :
+  exists n cs s,
+    let h := mkHooks [] [ORewind] in
+    let stream := fun sd p : nat => sd + p in
+    snd (pass_obs stream 2 true h n cs (fresh s)) <> snd (pass_obs stream 2 false h n cs (fresh s)).
+Proof. exists 4, 2, 7. vm_compute. discriminate. Qed.
+
+(* ---------- the checker of one route under one ambient setting ---------- *)
+Lemma qlist_eqb_Forall2 a b : list_eqb Qeqb a b = true -> Forall2 Qeq a b.
+Proof.
+  revert b. induction a as [|x a IH]; intros [|y b] H; simpl in H; try discriminate; [constructor|].
+  apply andb_true_iff in H. destruct H as [H1 H2]. constructor; [apply Qeq_bool_iff; exact H1|apply IH; exact H2].
+Qed.
+
+Theorem c16_ambient_case_zero r evs nout ra0 ra1 dec0 dec1 ras decs weights redshifts pairs
+        ref_ras ref_decs ref_pairs bits_same same_neutral :
+  c16_ambient_case r evs nout ra0 ra1 dec0 dec1 ras decs weights redshifts pairs
+                   ref_ras ref_decs ref_pairs bits_same same_neutral = 0 ->
+  after_last_reseed evs [] = aroute_sizes r /\
+  nout = aroute_total r /\ length ras = aroute_total r /\
+  Forall2 Qeq ras ref_ras /\ Forall2 Qeq decs ref_decs /\
+  bits_same = true /\ same_neutral = true /\
+  (forall wz, In wz pairs ->
+     exists j, j < length weights /\ j < length redshifts /\
+               (fst wz == nth j weights 0)%Q /\ (snd wz == nth j redshifts 0)%Q).
+Proof.
+  unfold c16_ambient_case, code. simpl.
+  destruct (amb_tie _ _ _ _ _ _ _ _ _ _ _) eqn:E0; [|simpl; lia].
+  destruct (amb_size _ _ _ _) eqn:E1; [|simpl; lia].
+  destruct (in_window ra0 ra1 ras && in_window dec0 dec1 decs); [|simpl; lia].
+  destruct (joint_ok weights redshifts pairs) eqn:E3; [|simpl; lia].
+  destruct (amb_same _ _ _ _ _ _ _) eqn:E4; [|simpl; lia].
+  destruct same_neutral; [|simpl; lia].
+  intros _.
+  unfold amb_tie in E0. apply andb_true_iff in E0. destruct E0 as [E0 _].
+  unfold amb_size in E1. apply andb_true_iff in E1. destruct E1 as [E1a E1]. apply andb_true_iff in E1. destruct E1 as [E1b _].
+  unfold amb_same in E4. apply andb_true_iff in E4. destruct E4 as [E4a E4]. apply andb_true_iff in E4. destruct E4 as [E4b E4].
+  apply andb_true_iff in E4. destruct E4 as [E4c _].
+  split; [symmetry; apply nlist_eqb_eq; exact E0|].
+  split; [apply Nat.eqb_eq; exact E1a|]. split; [apply Nat.eqb_eq; exact E1b|].
+  split; [apply qlist_eqb_Forall2; exact E4b|]. split; [apply qlist_eqb_Forall2; exact E4c|].
+  split; [exact E4a|]. split; [reflexivity|]. apply joint_ok_sound. exact E3.
+Qed.
